@@ -45,6 +45,10 @@ def binregions(rng, q):
     for n in ([67, 68, 69, 70, 100, 500, 1000, 1024, 4096, 10000, 65535, 65536, 100000] if q else list(range(60, 80)) + gen.ladder(80, 300000, 1.2)):
         for k in {0, 1, 2, 3, 5, 8, 13, 20, 25, 26, 27, 30, 40, 66, 67, 68, 70, 100, n // 2, n // 2 - 1, n // 3, n - 1, n, n - 2, int(n ** 0.5), int(n ** 0.5) + 1, n // 16, n // 16 + 1}:
             if 0 <= k <= n and math.comb(n, min(k, n - k)).bit_length() < (1_500_000 if not q else 300_000): pts.append((n, k))
+    # both sides of k = BIN_GOETGHELUCK_THRESHOLD and of k = n>>4 (Goetgheluck vs bdiv), of k = 25/26 (smallk) and 70/71 (smallkdc), n = 67/68 (table)
+    for n in (67, 68, 69, 1999, 2000, 2001, 2002, 2003, 15984, 16000, 16015, 16016, 16017, 16031, 16032, 16033, 20000, 30000):
+        for k in (2, 24, 25, 26, 27, 34, 35, 36, 69, 70, 71, 72, 999, 1000, 1001, 1002, (n >> 4) - 1, n >> 4, (n >> 4) + 1, (n >> 4) + 2, n // 2):
+            if 0 <= k <= n: pts.append((n, k)); pts.append((n, n - k))
     for n in (2 ** 32 - 1, 2 ** 32, 2 ** 32 + 1, 2 ** 63, 2 ** 64 - 1, 2 ** 64 - 2, 2 ** 53 + 1):
         for k in (0, 1, 2, 3, 5, 12, 30): pts.append((n, k))
     return pts
